@@ -9,12 +9,12 @@ and d <= n defaults; parameter names, body, defaults and the read-sets of the bo
 task.  (macro_body appends to local lists inside its loops, which the star-summarisation of the emission engine cannot
 abstract; hence the bound on n.)  parse_signature is proved for parameter lists of arbitrary length (loop invariant).
 
-  C06.emit.macro_body   (order)  def macro(<declared params in order>, [caller], [kwargs], [varargs]) and the MacroRef flags:
+  C06.emit.order      (macro_body) def macro(<declared params in order>, [caller], [kwargs], [varargs]) and the MacroRef flags:
                       accesses_caller iff `caller` is read undeclared in the body; the implicit caller parameter is declared
                       iff that holds and no explicit `caller` parameter exists; kwargs/varargs declared (and flagged) iff read
                       undeclared and not shadowed by a declared parameter of that name -- exactly the list Macro.__call__
                       builds from (arguments, caller, catch_kwargs, catch_varargs)
-                      (defaults) default k of d belongs to parameter n-d+k, emitted as `if p is missing: p = <default>` in
+  C06.emit.defaults   (macro_body) default k of d belongs to parameter n-d+k, emitted as `if p is missing: p = <default>` in
                       parameter order, evaluated in the macro's own frame after the earlier parameters are stored; a
                       parameter without default becomes undefined(..., name=<its name>); an explicit caller without default
                       is rejected
@@ -95,6 +95,15 @@ def native_macros(w=None):
                 problems.append(f"{src!r} (async={is_async}): {type(ex).__name__} instead of {exc.__name__}")
     # the flags the runtime object carries
     env = jinja2.Environment()
+    try:
+        problems += _module_flags(env)
+    except Exception as ex:  # noqa
+        problems.append(f"module with macros p/k/v/c/s cannot be built: {type(ex).__name__}: {ex}")
+    return (bool(problems), "; ".join(problems[:3]) or "macro calling template family agrees with the documented rules")
+
+
+def _module_flags(env):
+    problems = []
     mod = env.from_string("{% macro p(a) %}{{ a }}{% endmacro %}{% macro k(a) %}{{ kwargs }}{% endmacro %}{% macro v(a) %}{{ varargs }}{% endmacro %}"
                           "{% macro c(a) %}{{ caller() }}{% endmacro %}{% macro s(kwargs, varargs) %}{{ kwargs }}{{ varargs }}{% endmacro %}").module
     flags = {nm: (getattr(mod, nm).catch_kwargs, getattr(mod, nm).catch_varargs, getattr(mod, nm).caller) for nm in "pkvcs"}
@@ -106,7 +115,10 @@ def native_macros(w=None):
             problems.append("calling module macros from Python differs from template calls")
     except Exception as ex:
         problems.append(f"calling module macros from Python: {type(ex).__name__}: {ex}")
-    return (bool(problems), "; ".join(problems[:3]) or "macro calling template family agrees with the documented rules")
+    priv = env.from_string("{% macro _p() %}x{% endmacro %}{% macro q() %}y{% endmacro %}").module
+    if hasattr(priv, "_p") or not hasattr(priv, "q"):
+        problems.append("module exports: private macro exported / public macro missing")
+    return problems
 
 
 # ------------------------------------------------------------------------------------------- engine configuration
@@ -142,7 +154,8 @@ class MacroBody(Task):
     def __init__(self, n, d, node_cls_name="Macro", is_async=False):
         self.n, self.d, self.cls_name, self.is_async = n, d, node_cls_name, is_async
         self.prop = "C06"
-        self.name = f"C06.emit.macro_body[{node_cls_name},n={n},d={d},{'async' if is_async else 'sync'}]"
+        self.tag = f"[{node_cls_name},n={n},d={d},{'async' if is_async else 'sync'}]"
+        self.name = "C06.emit.macro_body" + self.tag
         self.bound_text = "parameter list length n <= 3 (concrete list; CallBlock n <= 2), names/defaults/body/read-sets symbolic"
 
     def replay(self, w):
@@ -182,13 +195,15 @@ class MacroBody(Task):
         res = []
         for i, sc in enumerate(scs):
             t1 = time.time()
-            fails = self.check(sc)
-            nm = f"{self.name}#p{i}"
-            if fails:
-                res.append(Res(nm, "refuted", "pyvc-emit", time.time() - t1, f"schema `{sc.describe()[:260]}`: " + "; ".join(fails[:3]), self.kind,
-                               witness={"schema": sc.describe()[:400], "n": n, "d": d, "path_condition": [str(c)[:80] for c in sc.pc][:12]}))
-            else:
-                res.append(Res(nm, "discharged", "pyvc-emit", time.time() - t1, "", self.kind))
+            allf = self.check(sc)
+            split = {"order": [f_ for f_ in allf if not f_.startswith("[defaults] ")], "defaults": [f_[11:] for f_ in allf if f_.startswith("[defaults] ")]}
+            for clause, fails in split.items():
+                nm = f"C06.emit.{clause}{self.tag}#p{i}"
+                if fails:
+                    res.append(Res(nm, "refuted", "pyvc-emit", time.time() - t1, f"schema `{sc.describe()[:260]}`: " + "; ".join(fails[:3]), self.kind,
+                                   witness={"schema": sc.describe()[:400], "n": n, "d": d, "path_condition": [str(c)[:80] for c in sc.pc][:12]}))
+                else:
+                    res.append(Res(nm, "discharged", "pyvc-emit", time.time() - t1, "", self.kind))
         if not res:
             res.append(Res(self.name + ".paths", "error", "pyvc-emit", 0, "no paths", self.kind))
         return res
@@ -315,13 +330,14 @@ class MacroBody(Task):
             fails.append(f"accesses_kwargs={mref.get('accesses_kwargs')} expected {want_kwargs}")
         if mref.get("accesses_varargs", False) is not want_varargs:
             fails.append(f"accesses_varargs={mref.get('accesses_varargs')} expected {want_varargs}")
+        n_order = len(fails)
         # defaults: `if p is missing: p = <default>` in parameter order, first thing in the function body
         ifs = [s for s in fn.body if isinstance(s, ast.If) and isinstance(s.test, ast.Compare) and isinstance(s.test.ops[0], ast.Is)
                and isinstance(s.test.comparators[0], ast.Name) and s.test.comparators[0].id == "missing"]
         first_hole = next((k for k, s in enumerate(fn.body) if isinstance(s, ast.Expr) and emit.is_hole_name(s.value)), len(fn.body))
         if len(ifs) != n:
             fails.append(f"{len(ifs)} `if p is missing` blocks for {n} parameters")
-            return fails
+            return fails[:n_order] + ["[defaults] " + f_ for f_ in fails[n_order:]]
         if any(fn.body.index(s) > first_hole for s in ifs):
             fails.append("a default block comes after the macro body")
         visits = {id(e): e for e in st.trace if e.kind == "call" and e.name == "visit"}
@@ -370,6 +386,7 @@ class MacroBody(Task):
         if seq != exp:
             fails.append("defaults are not evaluated in parameter order in the macro's frame with each earlier parameter marked stored "
                          f"(got {[(a, b) for a, b, _ in seq]}, expected {[(a, b) for a, b, _ in exp]}; frames {'agree' if [c for _, _, c in seq] == [c for _, _, c in exp] else 'differ'})")
+        fails = fails[:n_order] + ["[defaults] " + f_ for f_ in fails[n_order:]]
         # the body is visited in the macro's frame after the defaults, and its buffer is returned unescaped
         rets = [s for s in fn.body if isinstance(s, ast.Return)]
         if not (len(rets) == 1 and isinstance(rets[0].value, ast.Call) and emit.call_name(rets[0].value) == "concat"):
@@ -558,7 +575,7 @@ class ParseSignature(VC):
     skip_if('assign') that followed it, dexpr(i) = the expression parse_expression returned after that.
     Postcondition (statement: "unfilled parameters take their default"; the compiler and Macro.__call__ pair default j
     of d with parameter n-d+j): on return node.args = [param(0..n)], d = len(node.defaults) <= n,
-    has_default(i) <=> i >= n-d, and node.defaults[j] = dexpr(n-d+j).  Hence a parameter without default after one with
+    has_default(i) <=> i >= n-d, node.defaults[j] = dexpr(n-d+j), and every param(i) was put into the `param` context.  Hence a parameter without default after one with
     default never returns normally; every exception is a TemplateSyntaxError."""
     prop = "C06"
     target = "jinja2.parser:Parser.parse_signature"
@@ -636,7 +653,8 @@ class ParseSignature(VC):
             r = st.alloc(HObj(N.Name, fields={"name": fresh("pname", "str"), "ctx": "store"}, path="param"))
             st.get(r).plain_setattr = True
             g = c._g(st)
-            c._set(st, P=z3.Store(g["P"], g["k"], to_term(r, "obj")), k=g["k"] + 1)
+            c._set(st, P=z3.Store(g["P"], g["k"], to_term(r, "obj")), CT=z3.Store(g["CT"], g["k"], z3.BoolVal(False)), k=g["k"] + 1)
+            st.get(r).fields["ghost_index"] = g["k"]
             st.trace.append(Event("call", "parse_assign_target", [], dict(kwargs), r))
             out.append((st, r))
             return out
@@ -655,7 +673,10 @@ class ParseSignature(VC):
             return out
 
         def set_ctx(I_, st, args, kwargs, node):
-            st.get(args[0]).fields["ctx"] = args[1]
+            h = st.get(args[0])
+            h.fields["ctx"] = args[1]
+            if "ghost_index" in h.fields:
+                c._set(st, CT=z3.Store(c._g(st)["CT"], h.fields["ghost_index"], z3.BoolVal(args[1] == "param")))
             return [(st, args[0])]
 
         I.specs["Parser.parse_assign_target"] = parse_assign_target
@@ -668,7 +689,7 @@ class ParseSignature(VC):
         def heap(st, local):
             I_s, B = z3.IntSort(), z3.BoolSort()
             c._set(st, HD=z3.Const(fresh_name("HD"), z3.ArraySort(I_s, B)), DE=z3.Const(fresh_name("DE"), z3.ArraySort(I_s, Obj)),
-                   P=z3.Const(fresh_name("P"), z3.ArraySort(I_s, Obj)), k=z3.Int(fresh_name("k")))
+                   P=z3.Const(fresh_name("P"), z3.ArraySort(I_s, Obj)), CT=z3.Const(fresh_name("CT"), z3.ArraySort(I_s, B)), k=z3.Int(fresh_name("k")))
             for f in ("args", "defaults"):
                 r = st.get(c.node).fields[f]
                 st.heap[r.id] = HList(arr=z3.Const(fresh_name(f + "_arr"), z3.ArraySort(I_s, Obj)), n=z3.Int(fresh_name(f + "_n")), k="obj")
@@ -689,6 +710,8 @@ class ParseSignature(VC):
             z3.ForAll([i], z3.Implies(z3.And(0 <= i, i < n), z3.Select(g["HD"], i) == (i >= n - d))),
             z3.ForAll([i], z3.Implies(z3.And(0 <= i, i < d), z3.Select(aD, i) == z3.Select(g["DE"], n - d + i))),
             z3.ForAll([i], z3.Implies(z3.And(0 <= i, i < n), z3.Select(aA, i) == z3.Select(g["P"], i))),
+            # every parameter node was put into the `param` context (ghost CT[i] = set_ctx("param") was the last set_ctx on param i)
+            z3.ForAll([i], z3.Implies(z3.And(0 <= i, i < n), z3.Select(g["CT"], i))),
         ]
 
     def setup(self, I, st):
@@ -701,7 +724,7 @@ class ParseSignature(VC):
         st.get(self.node).plain_setattr = True
         st.ghost = dict(st.ghost)
         st.ghost["sig"] = {"HD": z3.Const("HD0", z3.ArraySort(I_s, z3.BoolSort())), "DE": z3.Const("DE0", z3.ArraySort(I_s, Obj)),
-                           "P": z3.Const("P0", z3.ArraySort(I_s, Obj)), "k": z3.IntVal(0)}
+                           "P": z3.Const("P0", z3.ArraySort(I_s, Obj)), "CT": z3.Const("CT0", z3.ArraySort(I_s, z3.BoolSort())), "k": z3.IntVal(0)}
         return [self.parser, self.node], {}
 
     def p_aligned(self, pre, out):
@@ -715,17 +738,7 @@ class ParseSignature(VC):
         cls = out.value.cls
         return cls is not None and issubclass(cls, TemplateSyntaxError)
 
-    def p_param_ctx(self, pre, out):
-        """every parameter node parsed in the iterations shown on this path is given the `param` context"""
-        if out.raised:
-            return None
-        for e in out.st.trace:
-            if e.kind == "call" and e.name == "parse_assign_target" and isinstance(e.result, Ref):
-                if out.st.get(e.result).fields.get("ctx") != "param":
-                    return False
-        return True
-
-    posts = [("defaults_belong_to_trailing_parameters", p_aligned), ("only_TemplateSyntaxError", p_raises), ("parameters_in_param_context", p_param_ctx)]
+    posts = [("defaults_belong_to_trailing_parameters", p_aligned), ("only_TemplateSyntaxError", p_raises)]
 
     def concretize(self, model, pre, out):
         return {"parse_signature": True}
